@@ -139,7 +139,7 @@ struct Dom
         {
             int parent = op.f == "create_sub" ? (int)op.i[0] : -1;
             const std::string& n = op.s[0];
-            if (!valid_name(n)) must_reject("invalid_name", "crate_invalid_name");
+            if (!valid_name(n)) must_reject("invalid_name", "")  /* the statement fixes no exception type; crate_invalid_name is what the library documents */;
             else if (m.sibling_name_taken(parent, n, -1)) either();
             else must_succeed("creating a crate with a valid, unused name");
             if (r.ok)
@@ -158,7 +158,7 @@ struct Dom
         {
             int c = (int)op.i[0];
             const std::string& n = op.s[0];
-            if (!valid_name(n)) must_reject("invalid_name", "crate_invalid_name");
+            if (!valid_name(n)) must_reject("invalid_name", "")  /* the statement fixes no exception type; crate_invalid_name is what the library documents */;
             else if (m.sibling_name_taken(m.c[c].parent, n, c)) either();
             else must_succeed("renaming to a valid name unused among the siblings");
             if (r.ok) m.c[c].name = n;
